@@ -85,6 +85,20 @@ CHECKS = {
         technique=TECH + 'seeded net_transform visit order, pass-ordering histories, '
                   'reference-model equivalence + postcondition oracle',
         design='5 C09'),
+    'C11': dict(
+        level='exploration',
+        text='Seeded stateful sessions over a pool of blocks: copy_block / synthesize / optimize '
+             'with update_working_block=False interleaved with edits (logic, renames, memory read '
+             'ports), simulations, foreign activity and refused passes, with the working block '
+             'chosen by the scheduler; after every operation fingerprints of all other blocks, '
+             'working-block identity, object disjointness of result and source, and RefSim '
+             'behaviour of every block from reset are checked. Sampling, not proof.',
+        note='Trusted: structural fingerprint (names, types, widths, const values, reset values, '
+             'memory attributes, ROM words), RefSim. optimize results that eliminated a register '
+             'are exempt from the behavioural comparison (C04 sanctioned difference).',
+        technique=TECH + 'seeded operation histories (stateful session) with pass_failure and '
+                  'foreign_activity faults; invariants after every event',
+        design='5 C11'),
 }
 
 NOT_APPLICABLE = {
